@@ -1,7 +1,7 @@
 (* C17 -- Valid parameters always yield a schedule; invalid ones fail before any action
    Property theorems only: each proof is one application of a lemma proved in Proofs/, followed by Print Assumptions. *)
 From Coq Require Import ZArith List Bool.
-From CS Require NAdv AllocProofs InvalidProofs RevConv RevBridge4 RevolveRun RevBridge6 DiskRun DiskBridge3 DiskGen PeriodGen.
+From CS Require NAdv AllocProofs InvalidProofs RevConv RevBridge4 RevolveRun RevBridge6 DiskRun DiskBridge3 DiskGen PeriodGen HRevTotal HRevTop.
 From CS Require Import Actions NAdvance Multistage Exec Sched RunFacts Projections BasicInv MultistageRun AllocTotal TLBridge MixBridge.
 Import ListNotations.
 Open Scope Z_scope.
@@ -28,6 +28,10 @@ Theorem C17_periodic_complete : forall (N ram disk uf ub wd rd : Z) (k : nat), 1
   exists o0 m ls, run_case (PRev RevConv.KPeriodic N ram disk uf ub wd rd) (DiskRun.disk_xparams N ram) (repeat Next k) = Ok (o0, m, ls) /\ no_raise ls /\ DiskBridge3.leftover_or_ok m.
 Proof. exact DiskRun.periodic_run. Qed.
 Print Assumptions C17_periodic_complete.
+Theorem C17_hrevolve_complete : forall (N ram disk uf ub wd rd : Z) (k : nat), 1 <= N -> 1 <= ram -> 0 <= disk ->
+  exists o0 m ls, run_case (PRev RevConv.KHRevolve N ram disk uf ub wd rd) (DiskRun.disk_xparams N ram) (repeat Next k) = Ok (o0, m, ls) /\ no_raise ls /\ DiskBridge3.leftover_or_ok m.
+Proof. exact HRevTop.hrevolve_run_total. Qed.
+Print Assumptions C17_hrevolve_complete.
 Theorem C17_twolevel_complete : forall (N P bs : Z) (bst : storage) (tj : traj), 1 <= N -> 1 <= P -> 0 <= bs -> bst = RAM \/ bst = DISK -> forall k : nat,
   exists o0 m ls, run_case (PTwo P bs bst tj) (ptl N P bs bst) (repeat Next (Z.to_nat (TLBridge.Q N P)) ++ [Fin N] ++ repeat Next (S k)) = Ok (o0, m, ls) /\ mon_ok m /\ no_raise ls.
 Proof. exact twolevel_run. Qed.
@@ -186,7 +190,34 @@ Proof. exact (@PeriodGen.periodic_top_total). Qed.
 Print Assumptions C17_periodic_top_total.
 End M_C17_periodic_top_total.
 
-(* PARTIAL (Revolve family): max_n < 1 or no RAM unit for max_n > 1 is an exception at construction; that valid tuples always yield a complete stream is proved for Revolve, DiskRevolve, PeriodicDiskRevolve (C17_*_complete) but not for HRevolve (correspondence + oracle) *)
+(* the HRevolve op-list generator never fails on the domain: get_hopt_table never indexes out of range, hrevolve_aux is never called without a slot, the recursion fuel suffices *)
+Module M_C17_hrevolve_total.
+Import HRevTotal.
+Theorem C17_hrevolve_total :
+  forall l ram disk wd rd uf ub : Z,
+         0 <= l ->
+         1 <= ram ->
+         0 <= disk -> exists L : list Ops.op, HRevSeq.hrevolve l ram disk wd rd uf ub = Actions.Ok L.
+Proof. exact (@HRevTotal.hrevolve_total). Qed.
+Print Assumptions C17_hrevolve_total.
+End M_C17_hrevolve_total.
+
+(* get_hopt_table (K = 2) returns, with tables of the right dimensions whose column m = 0 of optp[1] is infinite from l = 2 on *)
+Module M_C17_hopt_table_total.
+Import HRevTotal.
+Theorem C17_hopt_table_total :
+  forall lmax c0 c1 : Z,
+         0 <= lmax ->
+         1 <= c0 ->
+         0 <= c1 ->
+         forall w0 w1 r0 r1 ub uf : Z,
+         exists T : HRevSeq.tabs,
+           HRevSeq.get_hopt_table lmax c0 c1 w0 w1 r0 r1 ub uf = Actions.Ok T /\ Inv lmax c0 c1 T.
+Proof. exact (@HRevTotal.hopt_table_total). Qed.
+Print Assumptions C17_hopt_table_total.
+End M_C17_hopt_table_total.
+
+(* PARTIAL (Revolve family): max_n < 1 or no RAM unit for max_n > 1 is an exception at construction; that valid tuples always yield a complete stream is proved for Revolve, DiskRevolve, PeriodicDiskRevolve, HRevolve (C17_*_complete); PARTIAL only in that snapshots_in_ram = 0 with max_n = 1 is not covered for the disk classes (correspondence + oracle) *)
 Module M_C17_revolve_family_rejects_partial.
 Import InvalidProofs.
 Theorem C17_revolve_family_rejects_partial :
